@@ -28,15 +28,16 @@
 (***************************************************************************)
 EXTENDS CompressedOps
 
-CONSTANTS U, N, Eps, NChunks, Sentinel
+CONSTANTS U, N, Eps, EpsRec, NChunks, Sentinel
 VARIABLES data, idx, pc, q, res
 vars == <<data, idx, pc, q, res>>
-BuildIndex(a, up) == BuildCompP(a, Eps, NChunks, Sentinel, up)
+BuildIndex(a, up) == IF EpsRec = 0 THEN BuildCompP(a, Eps, NChunks, Sentinel, up)
+                     ELSE BuildCompRecP(a, Eps, EpsRec, Sentinel, up)      \* (sequential first level only)
 
 (***************************************************************************)
 (* the machine                                                             *)
 (***************************************************************************)
-NoRes == [pos |-> 0, lo |-> 0, hi |-> 0]
+NoRes == [pos |-> 0, lo |-> 0, hi |-> 0, oob |-> FALSE]
 Init == /\ \E x \in 0..(U - 1) : data = <<x>>
         /\ idx = <<>> /\ pc = "grow" /\ q = 0 /\ res = NoRes
 Extend == /\ pc = "grow" /\ Len(data) < N
@@ -49,17 +50,43 @@ AddEps(x, e, size) == IF x + e + 2 >= size THEN size ELSE x + e + 2
 \* values int64_t(slope * (k - key)) may take in floating point
 ProdSet(s, d) == LET num == s[2] * d g == TDiv(num, s[1]) IN
                  IF num % s[1] = 0 /\ g >= 1 /\ ~IsDyadic(s[1]) THEN {g - 1, g} ELSE {g}
+\* level(slopes_table, i, k): never negative
+LevelAt(L, i, k, g) == LET p == g + L.ics[i] IN IF p > 0 THEN p ELSE 0
+MinOf(a, b) == IF a < b THEN a ELSE b
 Search(query) ==
-  /\ pc = "built"
+  /\ pc = "built" /\ EpsRec = 0
   /\ LET k == IF query < data[1] THEN data[1] ELSE query
          i == Cardinality({j \in 1..idx.size : idx.keys[j] <= k})      \* 1-based index of the rightmost segment <= k
      IN \E g \in ProdSet(idx.slopes[i], k - idx.keys[i]) :
-          LET p == g + idx.ics[i]
-              lev == IF p > 0 THEN p ELSE 0
-              pos == IF lev < idx.ics[i + 1] THEN lev ELSE idx.ics[i + 1]
-          IN res' = [pos |-> pos, lo |-> SubEps(pos, Eps), hi |-> AddEps(pos, Eps, n)]
+          LET pos == MinOf(LevelAt(idx, i, k, g), idx.ics[i + 1])
+          IN res' = [pos |-> pos, lo |-> SubEps(pos, Eps), hi |-> AddEps(pos, Eps, n), oob |-> FALSE]
   /\ q' = query /\ pc' = "done" /\ UNCHANGED <<data, idx>>
-Next == Extend \/ BuildIt \/ (\E query \in (0 - 1)..(Sentinel - 1) : Search(query))
+\* the recursive search: root model, then per stored level (top-down) the window start and the forward scan
+\* `for (; *std::next(lo) <= key; ++lo)` (with the UNclamped key, as the code has it), prediction, cap by the next intercept.
+\* descend(t, pos): the set of final positions reachable from level t with predicted position pos (float products are sets);
+\* oob: the scan read past the sentinel entry
+RECURSIVE Descend(_, _, _, _)
+Descend(t, pos, query, k) ==
+  IF t > Len(idx.levels) THEN {<<pos, FALSE>>}
+  ELSE LET L == idx.levels[t]
+           wlo == SubEps(pos, EpsRec + 1)                                  \* 0-based
+           cnt == Len(L.keys)                                             \* entries incl. sentinel
+           C == {j \in wlo..(cnt - 2) : L.keys[j + 2] > query}            \* first j whose successor's key exceeds the key
+       IN IF C = {} \/ wlo > cnt - 1 THEN {<<pos, TRUE>>}
+          ELSE LET i == (CHOOSE j \in C : \A x \in C : j <= x) + 1       \* 1-based
+               IN UNION {Descend(t + 1, MinOf(LevelAt(L, i, k, g), L.ics[i + 1]), query, k) :
+                           g \in ProdSet(L.slopes[i], IF k >= L.keys[i] THEN k - L.keys[i] ELSE 0)}
+SearchRec(query) ==
+  /\ pc = "built" /\ EpsRec > 0
+  /\ LET k == IF query < data[1] THEN data[1] ELSE query
+         r == idx.root
+     IN \E g \in ProdSet(<<r.dx, r.dy>>, k - data[1]) :
+          LET p == g + r.ic
+              pos0 == MinOf(IF p > 0 THEN p ELSE 0, idx.rootRange)
+          IN \E f \in Descend(1, pos0, query, k) :
+               res' = [pos |-> f[1], lo |-> SubEps(f[1], Eps), hi |-> AddEps(f[1], Eps, n), oob |-> f[2]]
+  /\ q' = query /\ pc' = "done" /\ UNCHANGED <<data, idx>>
+Next == Extend \/ BuildIt \/ (\E query \in (0 - 1)..(Sentinel - 1) : Search(query) \/ SearchRec(query))
 Spec == Init /\ [][Next]_vars
 
 (***************************************************************************)
@@ -72,14 +99,19 @@ Shape == pc = "done" => res.lo <= res.hi /\ res.hi <= n /\ res.hi - res.lo <= 2 
 C08Present == (pc = "done" /\ Present(data, q)) => res.lo <= LB(data, q) /\ LB(data, q) < res.hi
 C08LowerBound == pc = "done" => LBin(data, q, res.lo, res.hi) = LB(data, q)
 \* sd_vector_builder::set: strictly increasing positions inside the vector; std::clamp: lo <= hi
-BuilderOK == idx # <<>> => /\ \A i \in 1..(Len(idx.positions) - 1) : idx.positions[i] < idx.positions[i + 1]
-                           /\ \A i \in 1..Len(idx.positions) : idx.positions[i] >= 0 /\ idx.positions[i] < idx.maxI
+LevelBuilderOK(L) == /\ \A i \in 1..(Len(L.positions) - 1) : L.positions[i] < L.positions[i + 1]
+                     /\ \A i \in 1..Len(L.positions) : L.positions[i] >= 0 /\ L.positions[i] < L.maxI
+BuilderOK == idx # <<>> => IF EpsRec = 0 THEN LevelBuilderOK(idx) ELSE \A t \in 1..Len(idx.levels) : LevelBuilderOK(idx.levels[t])
+\* the forward scan of every level stops at or before the sentinel entry (C17 for this class)
+InBounds == pc = "done" => ~res.oob
 ClampOK == idx # <<>> => idx.clampok
 \* the lower clamp never binds (cf. CompIntercepts.tla, ClampLemma.tla): holds for NChunks = 1
 NoUpwardShift == idx # <<>> => ~idx.upshift
 \* vacuity guards (must be violated)
-WitnessShared == idx # <<>> => ~(\E i, j \in 1..Len(idx.raw) : i # j /\ idx.slopes[i] = idx.slopes[j])
+WitnessShared == (idx # <<>> /\ EpsRec = 0) => ~(\E i, j \in 1..Len(idx.raw) : i # j /\ idx.slopes[i] = idx.slopes[j])
+WitnessTwoStoredLevels == (idx # <<>> /\ EpsRec > 0) => Len(idx.levels) < 2
+WitnessOneStoredLevel == (idx # <<>> /\ EpsRec > 0) => Len(idx.levels) < 1
 \* (the extra segment needs a last shared slope of exactly 0, which the closing point (last + 1, n) rules out in every
 \* sequential build of the explored universes; it is reached in recordings only)
-WitnessThreeSegments == idx # <<>> => Len(idx.raw) < 3
+WitnessThreeSegments == (idx # <<>> /\ EpsRec = 0) => Len(idx.raw) < 3
 =============================================================================
